@@ -4,7 +4,8 @@
 From Coq Require Import List String Ascii Bool ZArith Arith.
 From LV Require Import Cfg.Grammar Mod.Rename Mod.Rename_proofs Mod.Modules Mod.Modules_proofs
   Mod.Inline_proofs Mod.Compile Mod.Semantics_proofs Gen.Mangle Mod.MangleSrc_proofs
-  Mod.Options_proofs Mod.Unpack Mod.Unpack_proofs.
+  Mod.Options_proofs Mod.Unpack Mod.Unpack_proofs Mod.Front Mod.Search Mod.Search_proofs Gen.ModSrc
+  Mod.ModSrc_proofs Mod.Template_proofs.
 Import ListNotations.
 Local Open Scope string_scope.
 
@@ -502,3 +503,252 @@ Proof.
     destruct Hr as [<-|[<-|[<-|[<-|[]]]]]; simpl in Ha; simpl; tauto.
   - split. simpl. auto. reflexivity.
 Qed.
+
+(* ==== round 12: the file search, the statement front, the conditions of the current source ============ *)
+
+(* ---- which file a dotted path denotes ------------------------------------------------------------------ *)
+(* do_import tries import_paths (in order), then the directory of the importing grammar (relative imports
+   only), then lark's bundled grammars; the module is the first of them that has the file: everything before
+   it raised IOError (a FromPackageLoader raises it for a directory base path or another package) *)
+Theorem C17_import_resolution_order e b p n c :
+  resolve e b p = Ok (n, c) <->
+  exists l1 x l2, to_try e b = (l1 ++ x :: l2)%list /\
+    Forall (skips e b (grammar_path p)) l1 /\ try_candidate e b (grammar_path p) x = Found n c.
+Proof. exact (resolve_order e b p n c). Qed.
+Print Assumptions C17_import_resolution_order.
+
+Theorem C17_import_not_found e b p :
+  resolve e b p = Err ENoModule <->
+  Forall (skips e b (grammar_path p)) (to_try e b) /\ read_file e (grammar_path p) = None.
+Proof. exact (resolve_not_found e b p). Qed.
+Print Assumptions C17_import_not_found.
+
+(* %import a.b.c (library import) never looks into the directory of the importing grammar; %import .a.b.c
+   looks into import_paths FIRST, then into that directory, then into the bundled grammars *)
+Theorem C17_import_candidates e d :
+  to_try e BNone = (map CSrc (e_paths e) ++ [CSrc (e_std e)])%list /\
+  to_try e (BDir d) = (map CSrc (e_paths e) ++ [CBase (BDir d)] ++ [CSrc (e_std e)])%list.
+Proof. split. exact (lib_import_candidates e). exact (rel_import_candidates e d). Qed.
+Print Assumptions C17_import_candidates.
+
+Theorem C17_import_path_shadows e b p l1 d l2 c :
+  e_paths e = (l1 ++ SrcDir d :: l2)%list ->
+  Forall (fun s => try_candidate e b (grammar_path p) (CSrc s) = Skip) l1 ->
+  read_file e (path_join d (grammar_path p)) = Some c ->
+  resolve e b p = Ok (GName (path_join d (grammar_path p)), c).
+Proof. exact (import_path_shadows e b p l1 d l2 c). Qed.
+Print Assumptions C17_import_path_shadows.
+
+Theorem C17_stdlib_is_last e b p n c :
+  Forall (skips e b (grammar_path p)) (map CSrc (e_paths e) ++ (match b with BNone => [] | _ => [CBase b] end))%list ->
+  try_candidate e b (grammar_path p) (CSrc (e_std e)) = Found n c ->
+  resolve e b p = Ok (n, c).
+Proof. exact (stdlib_is_last e b p n c). Qed.
+Print Assumptions C17_stdlib_is_last.
+
+(* load_grammar over the file system (raw statement trees, _make_rule_tuple, _unpack_import, the search) is
+   load over the table keyed by dotted path whenever the table describes the file system along the imports:
+   every theorem above about load / do_import / import_is_inlining is a theorem about the grammar the search
+   finds *)
+Theorem C17_search_is_dotted_lookup e fs g fuel ls name rs ss b :
+  coherent fuel e fs name rs -> unpack_stmts rs = Ok ss ->
+  load_fs fuel e g ls name rs b = load fuel fs g ls ss b /\
+  load_fs_and_validate fuel e g name rs = load_and_validate fuel fs g ss.
+Proof.
+  intros Hc Hu. split. exact (load_fs_is_load e fs g fuel ls name rs ss b Hc Hu).
+  exact (load_fs_and_validate_is_load e fs g fuel name rs ss Hc Hu).
+Qed.
+Print Assumptions C17_search_is_dotted_lookup.
+
+(* ---- %declare, %ignore --------------------------------------------------------------------------------- *)
+Theorem C17_declare_is_bodyless_terminal g ls n b :
+  (defined (mangle ls n) (b_defs b) = false -> String.prefix "__" (mangle ls n) = false ->
+   apply_stmt g ls (SDeclare [(true, n)]) b =
+     Ok (mkB (b_defs b ++ [mkDef (mangle ls n) true None [] (OTerm 1)]) (b_ignore b) (b_heap b) (b_next b))) /\
+  (forall rest, apply_stmt g ls (SDeclare ((false, n) :: rest)) b = Err EDeclareRule) /\
+  (forall d l old, find_def (d_name d) l = Some old -> d_tree old = None ->
+     d_term d = d_term old -> d_params d = d_params old -> extend d l = Err EExtAbstract).
+Proof.
+  split. exact (declare_is_bodyless_terminal g ls n b). split.
+  intros rest. exact (declare_rule_is_error g ls n rest b). exact declared_cannot_be_extended.
+Qed.
+Print Assumptions C17_declare_is_bodyless_terminal.
+
+(* %ignore is never imported: loading a module under an import - its own %ignore statements and those of
+   every module it imports included - leaves the ignore list untouched; at top level %ignore NAME of an
+   (imported or local) terminal appends that name and defines nothing *)
+Theorem C17_ignore_is_not_imported fs g fuel ls ms b b' :
+  ls <> [] -> load fuel fs g ls ms b = Ok b' -> b_ignore b' = b_ignore b.
+Proof. exact (imported_module_ignores_nothing fs g fuel ls ms b b'). Qed.
+Print Assumptions C17_ignore_is_not_imported.
+
+Theorem C17_ignore_named_terminal n b :
+  ignore (Nd "expansions" [Nd "expansion" [Nd "value" [Sy true n]]]) b =
+    mkB (b_defs b) (b_ignore b ++ [n]) (b_heap b) (b_next b).
+Proof. exact (ignore_named_terminal n b). Qed.
+Print Assumptions C17_ignore_named_terminal.
+
+(* ---- _make_rule_tuple ---------------------------------------------------------------------------------- *)
+Theorem C17_make_rule_tuple mods name params prio exp d :
+  make_rule_tuple mods name params prio exp = Ok d ->
+  d_name d = name /\ d_term d = false /\ d_tree d = Some exp /\ d_params d = params /\
+  exists keep expand1,
+    d_opts d = ORule keep expand1 prio (match params with [] => None | _ => Some name end) /\
+    (keep = true <-> exists m, mods = Some m /\ has_chr "!" m = true) /\
+    (expand1 = true <-> exists m, mods = Some m /\ has_chr "?" m = true) /\
+    (expand1 = true -> String.prefix "_" name = false).
+Proof. exact (make_rule_tuple_spec mods name params prio exp d). Qed.
+Print Assumptions C17_make_rule_tuple.
+
+(* ---- the conditions of the model are those of the current source (coq/Gen/ModSrc.v is regenerated from
+        lark/load_grammar.py on every run; every mirrored function is pinned by a template) ----------------- *)
+Theorem C17_define_extend_are_source g o d l :
+  define g o d l =
+    match define_raise_src (defined (d_name d) l) o (d_name d) with
+    | Some 0 => Err EDup
+    | Some 1 => Err ENoOverride
+    | Some _ => Err EReserved
+    | None => Ok (set_def (mkDef (d_name d) (d_term d) (d_tree d) (d_params d) (check_options g (d_opts d))) l)
+    end /\
+  extend d l =
+    match find_def (d_name d) l with
+    | None =>
+        match extend_raise_src false (d_term d) false (d_params d) [] false with
+        | Some 0 => Err EExtUndefined
+        | _ => Err EFuel
+        end
+    | Some old =>
+        match extend_raise_src true (d_term d) (d_term old) (d_params d) (d_params old) (is_none (d_tree old)) with
+        | Some 0 => Err EExtUndefined
+        | Some 1 => Err EExtKind
+        | Some 2 => Err EExtParams
+        | Some _ => Err EExtAbstract
+        | None =>
+            match d_tree old, d_tree d with
+            | Some base, Some exp =>
+                Ok (set_def (mkDef (d_name old) (d_term old) (Some (add_alternative exp base)) (d_params old) (d_opts old)) l)
+            | _, _ => Ok l
+            end
+        end
+    end.
+Proof. split. exact (define_is_source g o d l). exact (extend_is_source d l). Qed.
+Print Assumptions C17_define_extend_are_source.
+
+Theorem C17_validate_is_source l d :
+  validate_def l d =
+  match scan_params l [] (d_params d) with
+  | Some _ => if existsb (fun p => defined p l) (d_params d) then Err EParamConflict else Err EParamDup
+  | None =>
+      match d_tree d with
+      | None => Ok tt
+      | Some t =>
+          _ <- fold_left (fun acc tu => _ <- acc ;; template_check l (d_params d) tu) (find_data "template_usage" t) (Ok tt) ;;
+          if forallb (fun s => negb (validate_sym_src (defined s l) (mem s (d_params d)))) (used_symbols t)
+          then Ok tt else Err ESymUndefined
+      end
+  end.
+Proof. exact (validate_def_is_source l d). Qed.
+Print Assumptions C17_validate_is_source.
+
+Theorem C17_dispatch_is_source g ls r b :
+  (stmt_action_src (stmt_data r) (is_nil ls) = action_of r ls) /\
+  (forall t, r = RIgnore t -> apply_raw g ls r b = (if is_nil ls then Ok (ignore t b) else Ok b)) /\
+  (forall rel p a, r = RImport rel p a -> apply_raw g ls r b = Ok b) /\
+  (forall n rest, r = RDeclare ((false, n) :: rest) -> declare_rejects_src false = true /\ apply_raw g ls r b = Err EDeclareRule).
+Proof. exact (dispatch_is_source g ls r b). Qed.
+Print Assumptions C17_dispatch_is_source.
+
+Theorem C17_search_order_is_source e b m name params prio exp :
+  to_try e b = to_try_src CSrc CBase (e_paths e) (match b with BNone => None | _ => Some b end) (e_std e) /\
+  make_rule_tuple (Some m) name params prio exp =
+    (if mrt_reject_src (mrt_expand1_src m) name then Err EInlineExpand1
+     else Ok (mkDef name false (Some exp) params
+                    (ORule (mrt_keep_src m) (mrt_expand1_src m) prio (match params with [] => None | _ => Some name end)))).
+Proof. split. exact (to_try_is_source e b). exact (make_rule_tuple_is_source m name params prio exp). Qed.
+Print Assumptions C17_search_order_is_source.
+
+Theorem C17_constants_are_source :
+  TOKEN_DEFAULT_PRIORITY = TOKEN_DEFAULT_PRIORITY_SRC /\ EXT = EXT_SRC /\
+  STDLIB = SrcPkg STDLIB_PKG_SRC IMPORT_PATHS_SRC /\
+  (forall name args, instance_name name args = INSTANCE_NAME_SRC name (join INSTANCE_ARG_SEP_SRC (map arg_name args))) /\
+  (forall m n ps p e, def_data (RawRule m n ps p e) = KIND_RULE_SRC) /\
+  (forall g ls n b b', apply_stmt g ls (SDeclare [(true, n)]) b = Ok b' ->
+      exists d, find_def (mangle ls n) (b_defs b') = Some d /\ d_opts d = OTerm DECLARED_OPTIONS_SRC).
+Proof. exact constants_are_source. Qed.
+Print Assumptions C17_constants_are_source.
+
+(* ---- templates: the instance has the template's options (seeded change C17-g) ---------------------------- *)
+Theorem C17_template_instance_keeps_options created rds name args created' rds' rn :
+  template_usage_step created rds name args = Ok (created', rds', rn) -> mem rn created = false ->
+  exists r inst, find_rdef name rds = [r] /\ rds' = (rds ++ [inst])%list /\
+    r_name inst = rn /\ r_params inst = [] /\ r_opts inst = r_opts r /\
+    r_tree inst = subst (zip_dict (r_params r) args []) (r_tree r).
+Proof. exact (template_instance_keeps_options created rds name args created' rds' rn). Qed.
+Print Assumptions C17_template_instance_keeps_options.
+
+(* ---- a concrete directory layout ------------------------------------------------------------------------ *)
+(*  /p0/m.lark: X: "p0"      /home/m.lark: X: "home"     /home/n.lark: %import .m.X   Y: X "y"
+    /home/main.lark: %import m.X -> A     %import .n.Y     start: A Y        import_paths = [/p0]
+    the library import m and the relative import .m inside n.lark both find /p0/m.lark (import_paths come
+    first); without /p0 the relative one finds /home/m.lark and the library one fails *)
+Definition sx (s : string) : raw_stmt :=
+  RDefine (RawTerm "X" None (Nd "expansions" [Nd "expansion" [Nd "value" [Nd "literal" [Tk s]]]])).
+Definition ex_n : list raw_stmt :=
+  [ RImport true ["m"; "X"] ANone;
+    RDefine (RawTerm "Y" None (Nd "expansions" [Nd "expansion" [Nd "value" [Sy true "X"]; Nd "value" [Nd "literal" [Tk """y"""]]]])) ].
+Definition ex_main_raw : list raw_stmt :=
+  [ RImport false ["m"; "X"] (AAlias "A"); RImport true ["n"; "Y"] ANone;
+    RDefine (RawRule None "start" [] None (Nd "expansions" [Nd "expansion" [Nd "value" [Sy true "A"]; Nd "value" [Sy true "Y"]]])) ].
+Definition ex_env (paths : list source) : env :=
+  mkEnv [("/p0/m.lark", [sx """p0"""]); ("/home/m.lark", [sx """home"""]); ("/home/n.lark", ex_n)] [] "/cwd" None paths STDLIB.
+
+Example C17_search_example :
+  resolve (ex_env [SrcDir "/p0"]) BNone ["m"] = Ok (GName "/p0/m.lark", [sx """p0"""]) /\
+  resolve (ex_env [SrcDir "/p0"]) (BDir "/home") ["m"] = Ok (GName "/p0/m.lark", [sx """p0"""]) /\
+  resolve (ex_env []) (BDir "/home") ["m"] = Ok (GName "/home/m.lark", [sx """home"""]) /\
+  resolve (ex_env []) BNone ["m"] = Err ENoModule /\
+  used_files 8 (ex_env [SrcDir "/p0"]) (GName "/home/main.lark") ex_main_raw [] =
+    [GName "/p0/m.lark"; GName "/home/n.lark"] /\
+  exists b, load_fs_and_validate 8 (ex_env [SrcDir "/p0"]) false (GName "/home/main.lark") ex_main_raw = Ok b /\
+    map d_name (b_defs b) = ["A"; "Y"; "start"].
+Proof.
+  split. vm_compute; reflexivity. split. vm_compute; reflexivity. split. vm_compute; reflexivity.
+  split. vm_compute; reflexivity. split. vm_compute; reflexivity.
+  eexists. split. vm_compute; reflexivity. vm_compute; reflexivity.
+Qed.
+
+(* the hypotheses of C17_search_is_dotted_lookup hold for this layout (table computed from the files found) *)
+Definition ex_unpacked (rs : list raw_stmt) : list stmt := match unpack_stmts rs with Ok l => l | Err _ => [] end.
+Definition ex_tab : module_files := [(["m"], ex_unpacked [sx """p0"""]); (["n"], ex_unpacked ex_n)].
+Definition ex_imps : list (import_entry base) :=
+  match collect_imports_b base_eqb (base_of (ex_env [SrcDir "/p0"]) (GName "/home/main.lark")) ex_main_raw with
+  | Ok l => l | Err _ => [] end.
+
+Example C17_coherent_example :
+  unpack_stmts ex_main_raw = Ok (ex_unpacked ex_main_raw) /\
+  coherent 1 (ex_env [SrcDir "/p0"]) ex_tab (GName "/home/main.lark") ex_main_raw /\
+  load_fs_and_validate 1 (ex_env [SrcDir "/p0"]) false (GName "/home/main.lark") ex_main_raw =
+    load_and_validate 1 ex_tab false (ex_unpacked ex_main_raw).
+Proof.
+  assert (Hu : unpack_stmts ex_main_raw = Ok (ex_unpacked ex_main_raw)) by (vm_compute; reflexivity).
+  assert (Hc : coherent 1 (ex_env [SrcDir "/p0"]) ex_tab (GName "/home/main.lark") ex_main_raw).
+  { exists ex_imps, (ex_unpacked ex_main_raw). split. vm_compute; reflexivity. split. exact Hu.
+    unfold ex_imps. vm_compute collect_imports_b.
+    constructor.
+    - exists (GName "/p0/m.lark"), [sx """p0"""], (ex_unpacked [sx """p0"""]).
+      split. vm_compute; reflexivity. split. vm_compute; reflexivity. split. vm_compute; reflexivity. exact I.
+    - constructor; [|constructor].
+      exists (GName "/home/n.lark"), ex_n, (ex_unpacked ex_n).
+      split. vm_compute; reflexivity. split. vm_compute; reflexivity. split. vm_compute; reflexivity. exact I. }
+  split. exact Hu. split. exact Hc.
+  exact (proj2 (C17_search_is_dotted_lookup _ _ false 1 [] _ _ _ empty_builder Hc Hu)).
+Qed.
+
+(* ---- %override of a terminal means textual replacement exactly when its tree object is not shared
+        (finding F35: C17_override_terminal_refuted is the shared case) ------------------------------------- *)
+Theorem C17_override_term_seen_iff_unshared g d b b' t :
+  d_term d = true -> d_tree d = Some t -> ptrs t = [] -> define_stmt g true d b = Ok b' ->
+  forall o, (exists o' t', hget o' (b_heap b') = Some t' /\ In o (ptrs t')) <->
+            (exists o' t', o' <> b_next b /\ hget o' (b_heap b) = Some t' /\ In o (ptrs t')).
+Proof. exact (override_term_seen_iff_unshared g d b b' t). Qed.
+Print Assumptions C17_override_term_seen_iff_unshared.
